@@ -14,6 +14,7 @@ CONSTANTS
   Ckpts = {"soft"}
   Moves = "gen"
   InitAlpha = "any"
+  CtorOpts = "all"
   AllowKF = FALSE
   Grads = {TRUE, FALSE}
   SelHows = {}
